@@ -124,6 +124,11 @@ func replayVisit(checker string) func(rc *runCtx, h *harness, v *interp.Violatio
 						confirmed, detail = i, bad
 					}
 				}
+				if strings.HasPrefix(v.Msg, "claim:") && r.Status == "OK" && i < len(sources) && r.Warnings > 0 {
+					if bad := badIdentityClaim(sources[i], r.JSON); bad != "" {
+						confirmed, detail = i, bad
+					}
+				}
 				if strings.HasPrefix(v.Msg, "suggest:") && r.Status == "OK" && i < len(sources) && r.Warnings > 0 {
 					bad, fixed, offs := badSuggestion(checker, sources[i], r.JSON)
 					if bad == "" {
